@@ -34,7 +34,7 @@ def run(doc, trace=None):
 
         sys.setprofile(prof)
     try:
-        out = run_concrete(scenario, witness)
+        out = run_concrete(scenario, witness, watchdog_s=float(doc.get('watchdog_s', 30)))
     finally:
         if trace is not None:
             sys.setprofile(None)
